@@ -7,7 +7,7 @@ a call redirected to its sibling, an integer constant bumped), all rules of all 
 altered program, and the alterations that no rule reports ("survivors") are listed for triage: each is
 either behaviour-preserving (say why) or a gap (write the rule).  Nothing touches /repo or the disk.
 
-  tools/fact_audit.py [--jobs N] [--only <substring of body name>] [--props C04,C05,...]
+  tools/fact_audit.py [--jobs N] [--only <substring of body name>] [--props C04,C05,...] [--out file]
   -> notes/fact_audit.jsonl (one line per alteration) and a summary on stdout"""
 import copy
 import json
@@ -157,6 +157,9 @@ def main():
     sites = enumerate_sites(CTX, only)
     print('%d alterations over %d bodies' % (len(sites), len({s[0] for s in sites})), flush=True)
     outp = os.path.join(HERE, 'notes', 'fact_audit.jsonl')
+    for i, a in enumerate(sys.argv):
+        if a == '--out':
+            outp = sys.argv[i + 1]
     surv = 0
     with Pool(jobs) as pool, open(outp, 'w') as f:
         for site, res, secs in pool.imap_unordered(run_one, sites, chunksize=1):
